@@ -1944,7 +1944,13 @@ func (l *lexer) lexRuneLiteral() error {
 		} else if r == BOM {
 			return l.errorf(bomErrorMsg)
 		}
-		p = s + 1
+		if len(l.src) <= s+1 || l.src[s+1] != '\'' {
+			return l.errorf("rune literal not terminated")
+		}
+		l.emit(tokenRune, s+2)
+		// The character is a single column, whatever its size in bytes.
+		l.column += 3
+		return nil
 	}
 	if len(l.src) <= p || l.src[p] != '\'' {
 		return l.errorf("rune literal not terminated")
